@@ -3,6 +3,7 @@ import Mouette.Lemmas.CuttingPrune
 import Mouette.Lemmas.CuttingNested
 import Mouette.Lemmas.CuttingPruneFix
 import Mouette.Lemmas.CuttingEuler
+import Mouette.Lemmas.CuttingDualTree
 /-!
 # C16 — cutting along singularities (partial)
 
@@ -20,9 +21,9 @@ the Euler characteristic (`vertex_count`, `twin_sides_shared`, `edge_count_parti
 
 NOT proved (tree–cotree theorem; checked on every run by the oracle with `surface_stats`): the cut mesh is ONE
 component with ONE border loop and Euler characteristic 1; every singular vertex has a copy on that border; the cut
-graph is connected. For χ the missing step is named precisely before `euler_characteristic_partial`: that a spanning
-tree of uncut dual edges makes all `2·|uncut|` corner unions effective (V' = F + 2), and that sides of the cut mesh
-coincide only when glued (false for the one-edge slit, an open finding). The stages before pruning (shortest paths,
+graph is connected. For χ: that a spanning tree of uncut dual edges makes all `2·|uncut|` corner unions effective
+(V' = F + 2) is proved in round 3 (`all_unions_effective_of_dual_forest`); what remains a hypothesis is that sides of the
+cut mesh coincide only when glued (false for the one-edge slit, an open finding), decided per run by the driver. The stages before pruning (shortest paths,
 Kruskal on paths, dual Dijkstra) are not modelled.
 -/
 namespace Mouette.Props.C16
@@ -279,8 +280,8 @@ FULL STATEMENT (not proved):
       (o.pos.length : Int) − edgeCount o F.length + F.length = 1
 What is proved below replaces "spanning tree of the faces + manifold" by its three consequences that are used:
   (all_effective) every one of the 2·|uncut| corner unions joins two distinct classes — this is the vertex-count
-                  statement `V' = 3F − 2|uncut| = F + 2`; it follows from the dual TREE (a cycle among the corner
-                  pairs would project to a closed walk without backtracking in the dual tree), not formalised;
+                  statement `V' = 3F − 2|uncut| = F + 2`; ROUND 3: now proved from the dual forest
+                  (`all_unions_effective_of_dual_forest`, `euler_characteristic_of_dual_tree_partial`);
   (hR, hdisj)     no corner starts two glued sides (distinct interior edges of a manifold input);
   (sep)           sides of the cut mesh coincide only when glued.
 -/
@@ -336,6 +337,56 @@ theorem euler_formula_of_report {nV : Nat} {F : List Face} {uncut : List (Nat ×
     have := euler_formula_partial tri h ps hps hR hdisj sep
     subst hV; subst heff; subst hu
     exact ⟨rfl, rfl, this⟩
+
+/-- Round 3 — the step that was missing: along a DUAL FOREST every corner union is effective. If the uncut edges
+(`a ≠ b` for each) are processed in the order of the code and each one joins two different classes of a union-find over
+the faces (`effCount (ufRange F) (facePairs es) = |uncut|`), then all `2·|uncut|` unions of corners performed by
+`_build_mesh_with_cuts` join two distinct classes. -/
+theorem all_unions_effective_of_dual_forest {F : List Face} {uncut : List (Nat × Nat)} (tri : AllTri F)
+    (ps : List (Nat × Nat)) (hps : unionPairs (halfEdges F) (cornerFaces F) uncut = some ps)
+    (hne : ∀ ab, ab ∈ uncut → ab.1 ≠ ab.2) :
+    ∃ es, ps = pairsOfEdges es ∧ es.length = uncut.length ∧
+      (∀ p, p ∈ facePairs es → p.1 < F.length ∧ p.2 < F.length) ∧
+      (effCount (ufRange F.length) (facePairs es) = es.length →
+        effCount (ufRange (3 * F.length)) ps = ps.length) := by
+  obtain ⟨es, e1, e2, e3⟩ := unionPairs_edges tri uncut ps hps hne
+  refine ⟨es, e1, e2, ?_, ?_⟩
+  · intro p hp
+    clear e1 e2
+    induction es with
+    | nil => simp [facePairs] at hp
+    | cons e l ih =>
+      simp only [facePairs, List.mem_cons] at hp
+      rcases hp with hp | hp
+      · subst hp; exact ⟨(e3 e List.mem_cons_self).g1, (e3 e List.mem_cons_self).g2⟩
+      · exact ih (fun x hx => e3 x (List.mem_cons_of_mem _ hx)) hp
+  · intro hdual
+    obtain ⟨inv0, he0, r0⟩ := ufRange_spec (vertOf F) (3 * F.length)
+    obtain ⟨invt, het, _⟩ := ufRange_spec (fun _ => ()) F.length
+    have := effective_of_dual_forest (vertOf F) (3 * F.length) F.length (Nat.le_refl _) es _ _ e3 inv0 he0 r0 invt het
+      (faceCompat_init _ _) hdual
+    have hl := unionPairs_length _ _ uncut ps hps
+    rw [e1] at hl ⊢
+    rw [this, hl, e2]
+
+/-- χ(cut mesh) = 1 for a dual SPANNING TREE (`|uncut| = F − 1`, the union-find over the faces across the uncut edges
+ends with one class). Still `_partial`: the three edge hypotheses `hR`, `hdisj`, `sep` (sides of the cut mesh coincide
+only when glued) remain; the vertex-count hypothesis `all_effective` of `euler_characteristic_partial` is now PROVED. -/
+theorem euler_characteristic_of_dual_tree_partial {nV : Nat} {F : List Face} {uncut : List (Nat × Nat)} {o : Out}
+    (tri : AllTri F) (h : build nV F uncut = .ok o) (ps : List (Nat × Nat))
+    (hps : unionPairs (halfEdges F) (cornerFaces F) uncut = some ps)
+    (hne : ∀ ab, ab ∈ uncut → ab.1 ≠ ab.2)
+    (tree_size : uncut.length + 1 = F.length)
+    (one_class : ∀ es, ps = pairsOfEdges es → (applyUnions (ufRange F.length) (facePairs es)).nComps = 1)
+    (hR : ((twins ps).map Prod.snd).Nodup) (hdisj : ∀ t, t ∈ twins ps → t.1 ∉ (twins ps).map Prod.snd)
+    (sep : ∀ a b, a < 3 * F.length → b < 3 * F.length → sideKey o a = sideKey o b →
+      a = b ∨ (a, b) ∈ twins ps ∨ (b, a) ∈ twins ps) :
+    (o.pos.length : Int) - (edgeCount o F.length : Int) + (F.length : Int) = 1 := by
+  obtain ⟨es, e1, e2, hb, himp⟩ := all_unions_effective_of_dual_forest tri ps hps hne
+  have hfl : (facePairs es).length + 1 = F.length := by rw [facePairs_length, e2]; exact tree_size
+  have hall := all_effective_of_one_class F.length (facePairs es) hb hfl (one_class es e1)
+  rw [facePairs_length] at hall
+  exact euler_characteristic_partial tri h ps hps tree_size (himp hall) hR hdisj sep
 
 /-- Reduction of χ = 1 to the vertex count alone: with the edge count in hand, χ = 1 is EQUIVALENT to
 `V' = F + 2`, i.e. to all corner unions being effective. -/
@@ -433,6 +484,8 @@ example : unionPairs (halfEdges [[0, 1, 2], [0, 2, 3]]) (cornerFaces [[0, 1, 2],
     = some [(3, 0), (4, 2)] := by decide +kernel
 example : effCount (ufRange 6) [(3, 0), (4, 2)] = 2 := by decide +kernel
 example : twins [(3, 0), (4, 2)] = [(3, 2)] := rfl
+/-- its dual forest: the single dual edge joins faces 1 and 0, which are in different classes -/
+example : facePairs [((3, 0), (4, 2))] = [(1, 0)] ∧ effCount (ufRange 2) [(1, 0)] = 1 := by decide +kernel
 example : (build 4 [[0, 1, 2], [0, 2, 3]] [(0, 2)]).toOption.map (fun o => (o.pos.length, edgeCount o 2))
     = some (4, 5) := by decide +kernel
 
